@@ -683,3 +683,246 @@ Proof.
   - destruct (is_eagain e); [inversion E; subst; exact H1|]. eapply (mu_close _ M); eauto.
   - inversion E; subst; exact H1.
 Qed.
+
+(* what a handler line does to the checker *)
+Definition want_of (m : umode) (call : string) (args : list arg) : option (list Z) :=
+  match m with
+  | UCb _ O => if String.eqb call "write" then match args with [ABytes d] => Some d | _ => None end else None
+  | _ => None
+  end.
+
+Lemma udp_step0_h : forall x call args,
+  udp_step0 ls x (EIn ("h", ASym call :: args)) =
+  match (if String.eqb call "write" then match args with [ABytes d] => Some d | _ => None end else None) with
+  | Some d => match u_cur x with
+              | Some _ => Some (mkU (u_pending x) (u_cur x) (u_seen x) (Some d))
+              | None => Some x end
+  | None => Some x
+  end.
+Proof.
+  intros x call args. unfold udp_step0.
+  destruct args as [|[?|d|?] [|]]; crack_goal ltac:(reflexivity); try reflexivity.
+Qed.
+
+Lemma RU_hline : forall m u x s call args x',
+  RU m None u x s -> udp_step ls x (EIn ("h", ASym call :: args)) = Some x' ->
+  RU m (want_of m call args) u x' s.
+Proof.
+  intros m u x s call args x' HR E. rewrite udp_step_in in E by reflexivity.
+  pose proof HR as [R1 R2 R3 R4].
+  destruct m as [|c d|]; cbn [msem want_of] in *; [| |destruct R4].
+  - rewrite R4 in E. rewrite udp_step0_h in E. rewrite R4 in E.
+    destruct (if String.eqb call "write" then _ else _); inversion E; subst; exact HR.
+  - destruct R4 as (A & B & C & D & E0 & F). rewrite A, B in E. destruct d; [|inversion E; subst; exact HR].
+    rewrite udp_step0_h in E. rewrite A in E.
+    destruct (if String.eqb call "write" then _ else _) as [dd|]; inversion E; subst; [|exact HR].
+    constructor; cbn [mkU u_pending u_want_send u_seen u_cur u_depth msem]; auto 10.
+Qed.
+
+Lemma RU_hret : forall m u x s args x',
+  RU m None u x s -> udp_step ls x (EIn ("hret", args)) = Some x' -> RU (pop m) None u x' s.
+Proof.
+  intros m u x s args x' HR E. rewrite udp_step_hret in E. pose proof HR as [R1 R2 R3 R4].
+  destruct m as [|c d|]; cbn [msem pop] in *; [| |destruct R4].
+  - rewrite R4 in E. cbn [udp_step0] in E. rewrite R2 in E. inversion E; subst.
+    constructor; cbn [mkU u_pending u_want_send u_seen u_cur u_depth msem]; auto.
+  - destruct R4 as (A & B & C & D & E0 & F). rewrite A, B in E. destruct d.
+    + cbn [udp_step0] in E. rewrite R2 in E. inversion E; subst.
+      constructor; cbn [mkU u_pending u_want_send u_seen u_cur u_depth msem]; auto.
+    + inversion E; subst. constructor; cbn [u_pending u_want_send u_seen u_cur u_depth msem]; auto 10.
+Qed.
+
+Lemma handler_S : forall f, MBU f -> forall cid w r w' m, hcond m cid ->
+  UINV (RU m None) w -> handler (S f) cid w = (r, w') -> UINV (RU (pop m) None) w'.
+Proof.
+  intros f M cid w r w' m Hc HI E. rewrite handler_eq in E.
+  destruct (pull w) as [[[name args]|] w1] eqn:Ep.
+  2:{ inversion E; subst. eapply U_pull_none; eauto. }
+  pose proof (Inv_pull ustep (udp_step ls) tt _ _ w _ w1 (RU_pull_ok m) HI Ep) as HA. cbn [after_pull] in HA.
+  destruct (String.eqb_spec name "hret") as [->|Nh].
+  { assert (H1 : UINV (RU (pop m) None) w1).
+    { eapply Inv_weaken; [|exact HA]. intros h' x' _ (h & x & HR & _ & _ & Es). destruct h, h'. eapply RU_hret; eauto. }
+    destruct args; inversion E; subst; [dsync|exact H1]. }
+  destruct (String.eqb_spec name "h") as [->|N2]; [|inversion E; subst; dsync].
+  destruct args as [|[?|?|call] args']; try (inversion E; subst; dsync).
+  assert (H1 : UINV (RU m (want_of m call args')) w1).
+  { eapply Inv_weaken; [|exact HA]. intros h' x' _ (h & x & HR & _ & _ & Es). destruct h, h'. eapply RU_hline; eauto. }
+  eapply (mu_handler _ M); [exact Hc| |exact E].
+  eapply (mu_hcall _ M); [| |exact H1].
+  - destruct m as [|c [|d]|]; cbn in *; auto.
+  - unfold wcond. destruct m as [|c [|d]|]; cbn [want_of]; auto. cbn in Hc. subst c.
+    destruct (String.eqb_spec call "write") as [->|]; [|auto].
+    destruct args' as [|[?|d|?] [|]]; auto. right. exists d. auto.
+Qed.
+
+Ltac chain_next :=
+  match goal with |- context [if sym_eqb ?c ?lit then _ else _] =>
+    let E := fresh "Ec" in destruct (sym_eqb c lit) eqn:E;
+    [apply String.eqb_eq in E; subst c|] end.
+Ltac hrs := apply U_hr_skip; [intros; right; reflexivity|].
+
+(* the Write of the datagram callback: exactly one sendto of the bytes just announced *)
+Lemma hcall_write_want : forall f, MBU f -> forall c d w,
+  UINV (RU (UCb c O) (Some d)) w -> UINV (RU (UCb c O) None) (hcall (S f) c "write" [ABytes d] w).
+Proof.
+  intros f M c d w HI. cbn [hcall]. cbn [sym_eqb String.eqb Ascii.eqb Bool.eqb].
+  assert (Hdead : forall w0, (c_udp (wc w c) = false \/ c_remote (wc w c) = false) -> UINV (RU UDead None) w).
+  { intros _ Hor. eapply U_absurd; [|exact HI]. intros u x HR.
+    pose proof (ru_mode _ _ _ _ _ HR) as (_ & _ & A & B & _). unfold wc in Hor. destruct Hor; congruence. }
+  destruct (c_udp (wc w c)) eqn:Eu.
+  - destruct (c_remote (wc w c)) eqn:Er; cbn [negb andb].
+    + destruct (sys "sendto" _ w) as [k w1] eqn:Es.
+      pose proof (U_sendto_want _ _ _ _ _ _ _ HI Es) as H1.
+      destruct k; hrs; exact H1.
+    + pose proof (Hdead w (or_intror eq_refl)) as HD.
+      eapply U_from_dead with (wnt := None). destruct (negb (c_opened (wc w c))).
+      * hrs. exact HD.
+      * destruct (sys "sendto" _ w) as [k w1] eqn:Es.
+        pose proof (U_sendto_none _ _ _ _ _ HD Es) as H1. destruct k; hrs; exact H1.
+  - pose proof (Hdead w (or_introl eq_refl)) as HD. eapply U_from_dead with (wnt := None).
+    destruct (conn_write f c d w) as [[n ok] w1] eqn:Ew.
+    hrs. eapply (mu_write _ M); eauto.
+Qed.
+
+Lemma hcall_S : forall f, MBU f -> forall cid call args w m wnt, tcond m cid -> wcond m wnt cid call args ->
+  UINV (RU m wnt) w -> UINV (RU m None) (hcall (S f) cid call args w).
+Proof.
+  intros f M cid call args w m wnt Ht Hw HI.
+  destruct Hw as [->|(d & -> & -> & -> & ->)]; [|apply hcall_write_want; assumption].
+  cbn [hcall].
+  chain_next.
+  { destruct args as [|[n|?|?] [|]]; try dsync.
+    destruct (c_in (wc w cid)) as [|a0 l0] eqn:Ein.
+    - apply U_hr_consume; auto; cbn [c_set_buf c_in c_buf c_udp c_remote c_opened]; rewrite ?Ein; cbn [app].
+      + apply is_prefix_ztake.
+      + rewrite zdrop_zlen_ztake. reflexivity.
+    - rewrite <- Ein. destruct (zlen (ztake n (c_in (wc w cid))) =? n) eqn:En.
+      + apply U_hr_consume; auto; cbn [c_set_in c_in c_buf].
+        * rewrite (read_take_in n _ (c_buf (wc w cid))) by lia. apply is_prefix_ztake.
+        * rewrite (read_take_in n _ (c_buf (wc w cid))) by lia. rewrite zdrop_zlen_ztake.
+          apply read_drop_in. lia.
+      + apply U_hr_consume; auto; cbn [c_set_in c_set_buf c_in c_buf].
+        * rewrite read_take. apply is_prefix_ztake.
+        * rewrite read_take, zdrop_zlen_ztake. apply read_drop. }
+  chain_next.
+  { destruct args as [|[n|?|?] [|]]; try dsync.
+    destruct (n >? _) eqn:Egt.
+    - apply U_hr_consume_nil; [reflexivity|exact HI].
+    - set (k := if n <=? 0 then _ else n).
+      apply U_hr_consume; auto; cbn [c_set_in c_set_buf c_in c_buf].
+      + apply is_prefix_ztake.
+      + rewrite zdrop_zlen_ztake, zdrop_app.
+        destruct (k - zlen (c_in (wc w cid)) >? 0) eqn:Em; [reflexivity|].
+        rewrite (zdrop_neg _ (k - _)) by lia. reflexivity. }
+  chain_next.
+  { destruct args as [|[n|?|?] [|]]; try dsync.
+    destruct (n >? _) eqn:Egt.
+    - apply U_hr_peek; [apply is_prefix_nil|exact HI].
+    - apply U_hr_peek; [apply is_prefix_ztake|exact HI]. }
+  chain_next.
+  { destruct args as [|[n|?|?] [|]]; try dsync.
+    pose proof (zlen_nonneg _ (c_in (wc w cid))) as P1. pose proof (zlen_nonneg _ (c_buf (wc w cid))) as P2.
+    destruct (_ || _) eqn:Eall.
+    - apply U_hr_discard; auto; cbn [c_set_in c_set_buf c_in c_buf app].
+      + rewrite zlen_app. lia.
+      + rewrite zdrop_all; [reflexivity|]. rewrite zlen_app. lia.
+    - destruct (c_in (wc w cid)) as [|a0 l0] eqn:Ein.
+      + apply U_hr_discard; auto; cbn [c_set_in c_set_buf c_in c_buf]; rewrite ?Ein; cbn [app].
+        * change (zlen (@nil Z)) with 0 in Eall. lia.
+        * reflexivity.
+      + rewrite <- Ein in *. destruct (n <? zlen (c_in (wc w cid))) eqn:Elt.
+        * apply U_hr_discard; auto; cbn [c_set_in c_set_buf c_in c_buf app].
+          { rewrite zlen_app. lia. }
+          { rewrite zdrop_app. rewrite (zdrop_neg _ (n - _)) by lia. reflexivity. }
+        * apply U_hr_discard; auto; cbn [c_set_in c_set_buf c_in c_buf app].
+          { rewrite zlen_app. lia. }
+          { rewrite zdrop_app. rewrite (zdrop_all _ n (c_in _)) by lia. reflexivity. } }
+  chain_next.
+  { apply U_hr_consume; auto; cbn [c_set_in c_set_buf c_in c_buf app].
+    - apply is_prefix_refl.
+    - rewrite zdrop_all by lia. reflexivity. }
+  chain_next.
+  { apply U_hr_inbuf. exact HI. }
+  chain_next.
+  { hrs. exact HI. }
+  chain_next.
+  { (* write *)
+    destruct args as [|[?|d|?] [|]]; try dsync.
+    destruct (c_udp (wc w cid)).
+    - destruct (_ && _); [hrs; exact HI|].
+      destruct (sys "sendto" _ w) as [k w1] eqn:Es.
+      pose proof (U_sendto_none _ _ _ _ _ HI Es) as H1.
+      destruct k; hrs; exact H1.
+    - destruct (conn_write f cid d w) as [[n ok] w1] eqn:Ew.
+      hrs. eapply (mu_write _ M); eauto. }
+  chain_next.
+  { destruct (c_udp (wc w cid)); [hrs; exact HI|].
+    destruct (conn_writev f cid (segs_of args) w) as [[n ok] w1] eqn:Ew.
+    hrs. eapply (mu_writev _ M); eauto. }
+  chain_next.
+  { (* flush *)
+    destruct (c_udp (wc w cid)); [hrs; exact HI|].
+    destruct (negb _); [hrs; exact HI|].
+    destruct (el_write f cid 0 w) as [r w1] eqn:Ew.
+    pose proof (mu_elwrite _ M _ _ _ _ _ _ HI Ew) as H1.
+    destruct r; try (hrs; exact H1).
+    destruct (_ && _); [|hrs; exact H1].
+    destruct (epctl "mod" _ true false w1) as [r2 w2] eqn:Ee.
+    hrs. eapply U_epctl; eauto. }
+  chain_next.
+  { destruct args as [|[?|d|?] [|]]; try dsync.
+    hrs. apply U_wsetc_same; rewrite ?wc_ghost; auto. apply U_emit; [uoign|exact HI]. }
+  chain_next.
+  { (* asyncwrite *)
+    destruct args as [|[?|d|?] [|cb [|]]]; try dsync.
+    destruct (c_udp (wc w cid)).
+    - set (w0 := if negb (c_remote (wc w cid)) && negb (c_opened (wc w cid)) then _ else w).
+      assert (H0 : UINV (RU m None) w0).
+      { subst w0. destruct (_ && _); [apply U_emit; [uoign|exact HI]|exact HI]. }
+      destruct (sys "sendto" _ w0) as [k w1] eqn:Es.
+      pose proof (U_sendto_none _ _ _ _ _ H0 Es) as H1.
+      hrs. destruct (flag_of cb); [apply U_emit; [uoign|exact H1]|exact H1].
+    - destruct (trigger false _ w) as [r w1] eqn:Et.
+      hrs. eapply U_trigger; [|exact HI|exact Et]; reflexivity. }
+  chain_next.
+  { destruct args as [|cb segs]; try dsync.
+    destruct (c_udp (wc w cid)); [hrs; exact HI|].
+    destruct (trigger false _ w) as [r w1] eqn:Et.
+    hrs. eapply U_trigger; [|exact HI|exact Et]; reflexivity. }
+  chain_next.
+  { destruct args as [|cb [|]]; try dsync.
+    destruct (trigger true _ w) as [r w1] eqn:Et.
+    hrs. eapply U_trigger; [|exact HI|exact Et]; reflexivity. }
+  chain_next.
+  { destruct args as [|cb [|]]; try dsync.
+    destruct (trigger true _ w) as [r w1] eqn:Et.
+    hrs. eapply U_trigger; [|exact HI|exact Et]; reflexivity. }
+  chain_next.
+  { destruct (el_close f _ true w) as [r w1] eqn:Ecl.
+    hrs. eapply (mu_close _ M); eauto. }
+  chain_next.
+  { destruct args as [|[t|?|?] [|[?|?|call'] args']]; try dsync.
+    destruct (c_opened (wc w t)) eqn:Eo; [|dsync].
+    destruct (U_split_target _ _ _ Eo HI) as (m' & HI' & Hne & Hback & _). apply Hback.
+    eapply (mu_hcall _ M); [| |exact HI'].
+    - destruct m' as [|c [|dd]|]; cbn; auto. eapply Hne; eauto.
+    - left. reflexivity. }
+  dsync.
+Qed.
+
+Lemma MBU_all : forall f, MBU f.
+Proof.
+  induction f as [|f IH].
+  - constructor; intros; cbn in *;
+      try match goal with E : (_, _) = (_, _) |- _ => inversion E; subst end; dsync.
+  - constructor.
+    + apply el_close_S; exact IH.
+    + apply close_drain_S; exact IH.
+    + apply conn_write_S; exact IH.
+    + apply conn_write_loop_S; exact IH.
+    + apply conn_writev_loop_S; exact IH.
+    + apply conn_writev_S; exact IH.
+    + apply el_write_S; exact IH.
+    + apply handler_S; exact IH.
+    + apply hcall_S; exact IH.
+Qed.
